@@ -116,8 +116,30 @@ class Setup:
         return self.sse.Search(self.edb, tk).get_result_list()
 
 
+def list_sharing(db):
+    """Groups of keywords whose posting lists are ONE list object (lost by the JSON form of a replay file)."""
+    groups = {}
+    for k, v in db.items():
+        groups.setdefault(id(v), []).append(k)
+    return [g for g in groups.values() if len(g) > 1]
+
+
+def restore_list_sharing(case):
+    """Replay: make the keywords recorded in case['list_sharing'] share one list object again."""
+    db = case.get("db")
+    if isinstance(db, dict):
+        for g in case.get("list_sharing") or []:
+            g = [k for k in g if k in db]
+            for k in g[1:]:
+                db[k] = db[g[0]]
+    return case
+
+
 def case_desc(scheme, cid, cfg, cls, db, extra=None):
     d = {"scheme": scheme, "cfg_id": cid, "cfg": cfg, "db_class": cls, "db": db}
+    sh = list_sharing(db) if isinstance(db, dict) else []
+    if sh:
+        d["list_sharing"] = sh
     if extra:
         d.update(extra)
     return d
